@@ -261,5 +261,75 @@ impl Position {
 //@end
 }
 
+// ------------------------------------------------------------------------------ placing a reuse instance
+// R-fragment of ReuseElement::generate_events (src/reuse.rs): the statements which move the fresh
+// instance to the reuse element's x / y. From the property (C18) and docs/dev-notes.md ("xy on the
+// reuse should translate the bbox of the target, overriding any position it may have"): whatever
+// kind of element the template is, the instance ends up at x / y.
+pub type Size = (R32, R32);      // src/position.rs: `pub type Size = (f32, f32);` under R-f32
+impl BoundingBox {
+    #[verifier::external_body]
+    pub fn size(&self) -> (r: (R32, R32)) ensures val(r.0) == val(self.x2) - val(self.x1), val(r.1) == val(self.y2) - val(self.y1) { unimplemented!() }
+}
+impl Position {
+//@item src/position.rs :: impl Position :: fn update_size
+//@ ensures
+//@ - *final(self) == (Position { width: Some(sz.0), height: Some(sz.1), ..*old(self) })
+//@end
+//@item src/position.rs :: impl Position :: fn update_shape
+//@ replace[R-clone] <<<shape.to_owned()>>> => <<<str_to_owned(shape)>>>
+//@ ensures
+//@ - final(self).shape@ == shape@
+//@ - (Position { shape: old(self).shape, ..*final(self) }) == *old(self)
+//@end
+}
+#[verifier::external_body] pub fn str_to_owned(s: &str) -> (r: String) ensures r@ == s@ { unimplemented!() }
+/// start + length on both axes and nothing else: the instance of C11.to_bbox.consistent (proved in U-geom) that place_instance needs
+pub axiom fn ax_to_bbox_start_length(p: Position)
+    ensures p.xmin is Some && p.width is Some && p.xmax is None && p.cx is None && p.ymin is Some && p.height is Some && p.ymax is None && p.cy is None ==>
+        to_bbox_spec(p) is Some && val(to_bbox_spec(p)->Some_0.x1) == val(p.xmin->Some_0) && val(to_bbox_spec(p)->Some_0.y1) == val(p.ymin->Some_0)
+        && val(to_bbox_spec(p)->Some_0.x2) == val(p.xmin->Some_0) + val(p.width->Some_0) && val(to_bbox_spec(p)->Some_0.y2) == val(p.ymin->Some_0) + val(p.height->Some_0);
+pub open spec fn rmin2(a: real, b: real) -> real { if a <= b { a } else { b } }
+/// the reuse element gives a numeric x and y and no other position attribute
+pub open spec fn only_xy(e: SvgElement) -> bool {
+    let m = e.attrs@;
+    e.name@ == "reuse"@ && num(m, "x"@) is Some && num(m, "y"@) is Some
+    && !m.dom().contains("x1"@) && !m.dom().contains("y1"@) && !m.dom().contains("x2"@) && !m.dom().contains("y2"@)
+    && !m.dom().contains("cx"@) && !m.dom().contains("cy"@) && !m.dom().contains("dx"@) && !m.dom().contains("dy"@)
+}
+
+//@item src/reuse.rs :: impl EventGen for ReuseElement :: fn generate_events
+//@ fragment-name place_instance
+//@ fragment-from <<<        let mut pos = Position::from(&reuse_element);>>>
+//@ fragment-to <<<        pos.set_position_attrs(&mut instance_element);>>>
+//@ fragment-head <<<fn place_instance(reuse_element: SvgElement, inst_el: &SvgElement, instance_size: Option<(f32, f32)>, mut instance_element: SvgElement) -> SvgElement {>>>
+//@ fragment-tail <<<    instance_element\n}>>>
+//@ before <<<        pos.set_position_attrs(&mut instance_element);>>>
+//@ | proof { ax_to_bbox_start_length(pos); }
+//@ ensures
+//@ - r.name == instance_element.name     @@C18.place.frame
+//@ - is_rectlike(instance_element.name@) && only_xy(reuse_element) && inst_el.content_bbox is None && instance_size is Some ==>
+//@       written(r.attrs@, "x"@, num(reuse_element.attrs@, "x"@)->Some_0) && written(r.attrs@, "y"@, num(reuse_element.attrs@, "y"@)->Some_0)     @@C18.place.rectlike
+//@ - instance_element.name@ == "circle"@ && only_xy(reuse_element) && inst_el.content_bbox is None && instance_size is Some ==>
+//@       written(r.attrs@, "cx"@, num(reuse_element.attrs@, "x"@)->Some_0 + val(instance_size->Some_0.0) / 2real)
+//@       && written(r.attrs@, "cy"@, num(reuse_element.attrs@, "y"@)->Some_0 + val(instance_size->Some_0.1) / 2real)     @@C18.place.circle
+//@ - instance_element.name@ == "g"@ && only_xy(reuse_element) && inst_el.content_bbox is Some ==> ({
+//@       let (x, y) = (num(reuse_element.attrs@, "x"@)->Some_0, num(reuse_element.attrs@, "y"@)->Some_0); let o = instance_element.attrs@;
+//@       (x != 0real || y != 0real) ==> r.attrs@ == o.insert("transform"@, if o.dom().contains("transform"@) { o["transform"@] + " "@ + translate_str(x, y) } else { translate_str(x, y) }) })     @@C18.place.group
+//@ - instance_element.name@ == "line"@ && num(reuse_element.attrs@, "x"@) is Some && num(reuse_element.attrs@, "y"@) is Some
+//@     && num(instance_element.attrs@, "x1"@) is Some && num(instance_element.attrs@, "x2"@) is Some
+//@     && num(instance_element.attrs@, "y1"@) is Some && num(instance_element.attrs@, "y2"@) is Some ==> ({
+//@       let o = instance_element.attrs@; let m = r.attrs@;
+//@       let (x1, y1, x2, y2) = (num(o, "x1"@)->Some_0, num(o, "y1"@)->Some_0, num(o, "x2"@)->Some_0, num(o, "y2"@)->Some_0);
+//@       let dx = num(reuse_element.attrs@, "x"@)->Some_0 - rmin2(x1, x2); let dy = num(reuse_element.attrs@, "y"@)->Some_0 - rmin2(y1, y2);
+//@       written(m, "x1"@, x1 + dx) && written(m, "y1"@, y1 + dy) && written(m, "x2"@, x2 + dx) && written(m, "y2"@, y2 + dy) })     @@C18.place.line
+//@ - instance_element.name@ == "text"@ && num(reuse_element.attrs@, "x"@) is Some && num(reuse_element.attrs@, "y"@) is Some
+//@     && !instance_element.attrs@.dom().contains("x"@) && !instance_element.attrs@.dom().contains("y"@) ==>
+//@       written(r.attrs@, "x"@, num(reuse_element.attrs@, "x"@)->Some_0) && written(r.attrs@, "y"@, num(reuse_element.attrs@, "y"@)->Some_0)     @@C18.place.text
+//@ - instance_element.name@ == "reuse"@ && num(reuse_element.attrs@, "x"@) is Some && num(reuse_element.attrs@, "y"@) is Some
+//@     && !instance_element.attrs@.dom().contains("x"@) && !instance_element.attrs@.dom().contains("y"@) ==>
+//@       written(r.attrs@, "x"@, num(reuse_element.attrs@, "x"@)->Some_0) && written(r.attrs@, "y"@, num(reuse_element.attrs@, "y"@)->Some_0)     @@C18.place.nested_reuse
+//@end
+
 } // verus!
 fn main() {}
